@@ -8,6 +8,7 @@ adjoint double layer = double layer with points and roles exchanged, and the sma
 Lifting to matrices uses the Galerkin spec (`dense_refines_spec`): real weights and real basis functions.
 -/
 import BemppVerif.Lemmas.KernelFacts
+import BemppVerif.Lemmas.AsmSpec
 import Mathlib.Analysis.SpecialFunctions.Exponential
 import Mathlib.Tactic.Ring
 import Mathlib.Tactic.FieldSimp
@@ -94,6 +95,39 @@ theorem adl_is_dl_transposed (x0 x1 x2 y0 y1 y2 nx0 nx1 nx2 ny0 ny1 ny2 p0 p1 : 
       modSL, hr, hd] <;> ring
 
 end algebraic
+
+
+/-! ### Matrix level (regular part), through the Galerkin specification -/
+
+section matrix
+open BemppVerif.Model.Asm BemppVerif.Lemmas
+variable {R : Type} [CommRing R]
+
+/-- **Transposition**: if the kernel of one operator is the kernel of another with the two points exchanged (as for the
+adjoint double layer vs the double layer, `adl_is_dl_transposed`), and test/trial data are exchanged accordingly, the
+regular part of its Galerkin matrix on `(T, S)` is the transpose of the other's on `(S, T)`. -/
+theorem regular_part_transposed (d : RegData R) (T S : SpaceData R) (te tr : List Nat) (r c : Nat) :
+    galerkin T S te tr
+      (localReg ⟨d.nq, d.w, d.ieS, d.ieT, d.phiS, d.phiT, fun a p b q => d.K b q a p, fun a b => d.adjacent b a⟩) r c
+      = galerkin S T tr te (localReg d) c r := by
+  have h : localReg ⟨d.nq, d.w, d.ieS, d.ieT, d.phiS, d.phiT, fun a p b q => d.K b q a p, fun a b => d.adjacent b a⟩
+      = fun τ σ i j => localReg d σ τ j i := by
+    funext τ σ i j; exact localReg_transpose d τ σ i j
+  rw [h]
+  exact galerkin_transpose T S te tr (localReg d) r c
+
+/-- **Sign / scaling of the kernel carries to the matrix**: multiplying every kernel value by `a` (e.g. `a = -1` for the
+imaginary part under k ↦ -k̄) multiplies the regular part of the matrix by `a`; together with
+`helmholtz_conj_symmetry` this is `A(-k̄) = conj A(k)` for the regular part (weights and basis functions are real). -/
+theorem regular_part_scales_with_kernel (d : RegData R) (a : R) (T S : SpaceData R) (te tr : List Nat) (r c : Nat) :
+    galerkin T S te tr (localReg { d with K := fun x y z w => a * d.K x y z w }) r c
+      = a * galerkin T S te tr (localReg d) r c := by
+  have h : localReg { d with K := fun x y z w => a * d.K x y z w } = fun τ σ i j => a * localReg d τ σ i j := by
+    funext τ σ i j; exact localReg_smul_kernel d a τ σ i j
+  rw [h]
+  exact galerkin_smul T S te tr a (localReg d) r c
+
+end matrix
 
 /-! ### Small-wavenumber bounds (complex analysis) -/
 
